@@ -71,6 +71,20 @@ def cases(tier, rng):
             hists = [[rng.choice(SYMS) for _ in range(rng.randint(0, 30 if rng.random() < 0.2 else 6))] for _ in range(ns)]
             out.append("m%d %s" % (k, scenario(sock, hists)))
             k += 1
+    # XPUB applies a subscription message when the application receives it, exactly once - whatever publishes happen between
+    # its arrival and that recv
+    for first in ("s", "u"):
+        for nsend in (1, 2):
+            ops = ["attach a SUB", "feed a " + W.tok(W.msg([b"\x01z"])), "recv"]
+            if first == "u":
+                ops += ["feed a " + W.tok(W.msg([b"\x01a"])), "recv", "feed a " + W.tok(W.msg([b"\x01a"])), "recv"]
+            ops += ["feed a " + W.tok(W.msg([(b"\x01" if first == "s" else b"\x00") + b"a"]))]
+            ops += ["send 6131;70"] * nsend            # published before the application has seen that message
+            ops += ["recv"]
+            ops += ["feed a " + W.tok(W.msg([(b"\x00" if first == "s" else b"\x01") + b"a"])), "recv"]
+            ops += ["send 6132;70", "send 7a31;70", "wire a"]
+            out.append("x%d sock XPUB / %s" % (k, " / ".join(ops)))
+            k += 1
     # two connections announcing the same identity: subscriptions are counted per CONNECTION; the one connected last is
     # the subscriber and starts without any
     for sock in ("PUB", "XPUB"):
@@ -108,6 +122,28 @@ def judge(line, obs, orc):
         want = W.msg([b"b1", b"payload"]).hex()
         if got != want:
             return "a connection that subscribed to 'b' only (its identity was used by an earlier connection subscribed to 'a') received %s, expected %s" % (got[:80], want)
+        return None
+    if line.split()[0].startswith("x"):
+        # reference: the multiset changes at each recv that returns a subscription message; a publish is matched against
+        # the multiset at the moment of the send
+        cnt, pending, want = {}, [], b""
+        for op, tk in po:
+            if op[0] == "feed":
+                pending += scen_parse(W.untok(op[2]))
+            elif op[0] == "recv" and tk.startswith("r=ok:") and pending:
+                m = pending.pop(0)
+                t0 = m[0][1:]
+                if m[0][:1] == b"\x01":
+                    cnt[t0] = cnt.get(t0, 0) + 1
+                elif cnt.get(t0, 0) > 0:
+                    cnt[t0] -= 1
+            elif op[0] == "send":
+                fr = S.frames_of_tok(op[1])
+                if any(c > 0 and fr[0].startswith(t0) for t0, c in cnt.items()):
+                    want += W.msg(fr)
+        got = [tk for op, tk in po if op[0] == "wire"][0].split("=", 1)[1]
+        if got != (want.hex() or "-"):
+            return "XPUB with publishes between the arrival and the recv of subscription messages: subscriber received %s, expected %s" % (got[:100], (want.hex() or "-")[:100])
         return None
     fed = {}
     names = []
